@@ -102,6 +102,10 @@ def delta(tier):
         out.append(("delta", dict(block=8, minis=1, count=6, longval=False, widths=[[4]], vlen=5, dlen=5)))
         out.append(("delta", dict(block=16, minis=2, count=1, longval=True, widths=[])))
         out.append(("delta", dict(block=16, minis=2, count=2, longval=False, widths=[[4, 0]])))
+        # the values end exactly with a miniblock; the width byte of the following, unneeded miniblock is arbitrary
+        # (Encodings.md: readers must accept any value there) and no bytes are stored for it
+        out.append(("delta", dict(block=16, minis=2, count=9, longval=False, widths=[[3, 5]])))
+        out.append(("delta", dict(block=16, minis=2, count=9, longval=True, widths=[[2, 7]])))
     else:
         for w in range(0, 65):
             for lv in (False, True):
